@@ -45,6 +45,7 @@ func isNoopPkg(path string) bool {
 var modelledPrefixes = []string{
 	"github.com/dgraph-io/badger/v2",
 	"github.com/herumi/bls-eth-go-binary",
+	"github.com/ferranbt/fastssz",
 	"github.com/spf13/viper",
 	"google.golang.org/grpc",
 	"reflect",
